@@ -83,7 +83,7 @@ fn gen_token(r: &mut Rng) -> Vec<u8> {
     if r.chance(1, 12) {
         return r.over(b"ab <>\n\t.", 6);
     }
-    let mut v = r.over(b"abcXYZ .-_\xc3\xa9@0", 12);
+    let mut v = r.over(b"abcXYZ .-_\xc3\xa9@0\r", 12);
     if r.chance(9, 10) {
         // keep it inside the round-trip domain: no surrounding whitespace
         while v.first() == Some(&b' ') {
@@ -113,7 +113,7 @@ fn gen_message(r: &mut Rng) -> Vec<u8> {
     match r.below(6) {
         0 => vec![],
         1 => { let n = r.usize(40); r.bytes(n) }.into_iter().filter(|b| *b != 0).collect(),
-        _ => r.over(b"ab c\n\n-:\xf0", 60),
+        _ => r.over(b"ab c\n\n-:\xf0\r", 60),
     }
 }
 
@@ -134,7 +134,17 @@ fn gen_extra(r: &mut Rng) -> (Vec<u8>, Vec<u8>) {
     let value = match r.below(8) {
         0 => vec![],
         1 => b"\n".to_vec(),
-        2 => r.over(b"ab \n", 10),
+        2 => r.over(b"ab \n\r", 10),
+        7 => {
+            // CRLF-terminated lines, as signatures produced by Windows tooling have
+            let n = 1 + r.usize(4);
+            let mut v = Vec::new();
+            for _ in 0..n {
+                v.extend_from_slice(&r.over(b"abc =", 6));
+                v.extend_from_slice(if r.chance(3, 4) { b"\r\n" } else { b"\n" });
+            }
+            v
+        }
         3 => {
             let mut v = b"-----BEGIN PGP SIGNATURE-----\n\nabc\n-----END PGP SIGNATURE-----".to_vec();
             if r.chance(1, 2) {
